@@ -19,14 +19,80 @@ def genHelpersOf (e : Expr) : MetaM (Array Name) := do
       !(n.getString!.startsWith "inst") &&
       (match env.find? n with | some (.defnInfo _) => true | _ => false)
 
-elab "unfold_gen_helpers" : tactic => do
+/-- `unfold_gen_helpers keeping F G`: the same, except that the calls of the tied functions `F`, `G` (about which
+    the proof uses their own tie theorems) stay folded -/
+syntax "unfold_gen_helpers" (" keeping" (ppSpace colGt ident)+)? : tactic
+
+def unfoldGenHelpers (keep : Array Name) : TacticM Unit := do
   for _ in [0:8] do
     let g ← getMainGoal
     let tgt ← instantiateMVars (← g.getType)
-    let ns ← genHelpersOf tgt
+    let ns := (← genHelpersOf tgt).filter fun n => !keep.contains n
     if ns.isEmpty then return
     for n in ns do
       evalTactic (← `(tactic| try unfold $(mkIdent n):ident))
+
+elab_rules : tactic
+  | `(tactic| unfold_gen_helpers) => unfoldGenHelpers #[]
+  | `(tactic| unfold_gen_helpers keeping $ids*) => do
+      let ns ← ids.mapM fun i => realizeGlobalConstNoOverloadWithInfo i
+      unfoldGenHelpers ns
+
+/-- two runs of the same call followed by continuations that agree on every result -/
+theorem bind_congr_fun {α β : Type} (x : Option α) (k1 k2 : α → Option β) (h : ∀ a, k1 a = k2 a) :
+    x.bind k1 = x.bind k2 := by
+  cases x with
+  | none => rfl
+  | some a => exact h a
+
+theorem len_beq_zero' {α : Type} (xs : List α) : (Imp.len xs == 0) = xs.isEmpty := by
+  cases xs <;> simp [Imp.len] <;> omega
+theorem zero_beq_len' {α : Type} (xs : List α) : ((0 : Int) == Imp.len xs) = xs.isEmpty := by
+  cases xs <;> simp [Imp.len] <;> omega
+theorem len_bne_zero' {α : Type} (xs : List α) : (Imp.len xs != 0) = !xs.isEmpty := by
+  cases xs <;> simp [Imp.len] <;> omega
+theorem len_pos' {α : Type} (xs : List α) : decide (Imp.len xs > 0) = !xs.isEmpty := by
+  cases xs <;> simp [Imp.len] <;> omega
+theorem len_pos'' {α : Type} (xs : List α) : decide (0 < Imp.len xs) = !xs.isEmpty := by
+  cases xs <;> simp [Imp.len] <;> omega
+theorem str_beq_nil (x : Str) : (x == ([] : Str)) = x.isEmpty := by cases x <;> rfl
+theorem str_nil_beq (x : Str) : (([] : Str) == x) = x.isEmpty := by cases x <;> rfl
+theorem str_bne_nil (x : Str) : (x != ([] : Str)) = !x.isEmpty := by cases x <;> rfl
+theorem str_nil_bne (x : Str) : (([] : Str) != x) = !x.isEmpty := by cases x <;> rfl
+
+/-- a string with a non-empty prefix is not empty: `len(s) > 0 && strings.HasPrefix(s, "{")` is `strings.HasPrefix(s, "{")` -/
+theorem nonempty_and_hasPrefix (c : Char) (p s : Str) :
+    (!s.isEmpty && Str.hasPrefix (c :: p) s) = Str.hasPrefix (c :: p) s := by
+  cases s <;> simp [Str.hasPrefix, List.isPrefixOf]
+
+/-- `tie_norm`: the ways Go code asks "is this string / slice empty" (`len(x) == 0`, `x == ""`, `len(x) > 0`,
+    `x != ""`, …) all become `x.isEmpty` / `!x.isEmpty`; string literals become lists of characters; a redundant
+    emptiness test in front of a `HasPrefix` with a non-empty prefix is dropped -/
+macro "tie_norm" : tactic => `(tactic|
+  try simp only [String.reduceToList, Restful.TieImp.nonempty_and_hasPrefix, Restful.TieImp.len_beq_zero', Restful.TieImp.zero_beq_len',
+    Restful.TieImp.len_bne_zero', Restful.TieImp.len_pos', Restful.TieImp.len_pos'',
+    Restful.TieImp.str_beq_nil, Restful.TieImp.str_nil_beq,
+    Restful.TieImp.str_bne_nil, Restful.TieImp.str_nil_bne])
+
+/-- `tie_step [defs]` closes "one iteration of the translated loop is the hand-written step": the two sides are
+    `do`-blocks of `Option` that make the same calls in the same order and may differ in how the branches are
+    associated (an early `continue` for a nested block, a guard clause, De Morgan, `!=` for a negated `==`).
+    `rfl` when the texts agree; otherwise the listed definitions are unfolded, the calls are matched one by one
+    (`bind_congr_fun`), tuples are destructured, every `if` / `match` is split and the leaves are closed by
+    `simp_all` — nothing about the particular loop is used. -/
+syntax "tie_step" (" [" Lean.Parser.Tactic.simpLemma,* "]")? : tactic
+macro_rules
+  | `(tactic| tie_step) => `(tactic| tie_step [])
+  | `(tactic| tie_step [$ls,*]) => `(tactic|
+      first
+      | rfl
+      | (simp only [$ls,*, bind, Option.bind_eq_bind, Option.pure_def, Option.bind_some, bne, Imp.deref]
+         repeat' (first
+           | rfl
+           | (apply Restful.TieImp.bind_congr_fun; intro _)
+           | split
+           | (rename_i x; rcases x with ⟨_, _⟩))
+         all_goals (first | rfl | simp_all)))
 
 end TieImp
 end Restful
